@@ -116,7 +116,12 @@ func scenarioC03(c *hlib.RunCtx) *hlib.Violation {
 			p.counters = append(p.counters, p.f.VerifNewCounter(fmt.Sprintf("c%d", i)))
 		case 1:
 			// a long name: a few of these cross a 16 KiB page and force a remap
-			p.counters = append(p.counters, p.f.VerifNewCounter(longName(fmt.Sprintf("L%d/", i), 3000+t.Draw(1000))))
+			// (one in four at the longest length a name may have, or just below it)
+			ln := 3000 + t.Draw(1000)
+			if t.Bool(1, 4) {
+				ln = 4096 - t.Draw(3)
+			}
+			p.counters = append(p.counters, p.f.VerifNewCounter(longName(fmt.Sprintf("L%d/", i), ln)))
 		case 2:
 			// a second Counter object with the name of an earlier one
 			if len(p.counters) > 0 {
